@@ -51,4 +51,9 @@ TEXT = {
   "level_text": "Fault enumeration: for template sets from five structural generators (control flow, inheritance with parent(), include chains, macro libraries via five call forms, apply/spaceless) with spy functions/filters/tests injected at every kind of expression position, each single invocation of the fault-free render (all when <= 64, else 64 evenly spaced) is failed once and the top-level call must return an error wrapping the sentinel and no output, via Render, RenderTo and debug mode. Same for every loader call of inheritance/include/import structures, for one unresolvable filter/function/test/template name at an evaluated position, and for built-in filter names re-registered with failing callbacks under each tag that applies a filter itself.",
   "level_note": "Single faults only (one failing invocation per render). Faults are injected through the public callback and loader interfaces. Tolerances exempt by the statement (undefined variables/attributes, ignore missing on a missing template) are excluded by construction.",
  },
+ "C06": {
+  "technique": "property-based testing (rapid) over carrier chains x occurrence positions + exhaustive position x carrier matrix; oracle = spy invocation counters with an unsandboxed liveness control run, errors.As(*SecurityViolation), and an allowed-policy control run",
+  "level_text": "Exploration: a forbidden spy filter or function in 26/21 syntactic positions reached from `include ... sandboxed` through chains of up to 3 (thorough 4) of 14 carriers (include variants, extends, parent(), import, from-import, macros, apply, for, if, block, set) under two policy types. Each case has four runs: unsandboxed (the occurrence must be live), sandboxed (0 invocations, SecurityViolation, no output), sandboxed-but-allowed (same output as unsandboxed), and an occurrence after the include in the including template over two renders (permissions kept, flag does not leak). Every position x every single carrier and all carrier pairs for six positions are enumerated exhaustively.",
+  "level_note": "Confinement is observed through harness-registered spy callbacks; built-in filters/functions are assumed to go through the same two choke points as the spies. Carriers that are function calls themselves (macro names, parent) are allowed by the policy.",
+ },
 }
